@@ -132,7 +132,18 @@ class RangeDomain:
 
     def on_closure(self, ex, fr, path, ops):
         """what a closure captured where it was built (used when its body has to be analysed on its own, handed to a library adaptor)"""
-        self.__dict__.setdefault("closure_envs", {}).setdefault(path, []).append(list(ops))
+        # (a captured reference to an integer local is kept as the value it has at this moment: the local moves on — a loop
+        # counter — while every closure built from it saw one value of it)
+        snap = []
+        for o in ops:
+            v = deref_value(ex, o) if isinstance(o, Ref) else o
+            if isinstance(o, Ref) and isinstance(v, (int, Rng)) and not isinstance(v, bool):
+                hf = Frame(fr.body, [])
+                hf.env[0] = v
+                snap.append(Ref(hf, 0))
+            else:
+                snap.append(o)
+        self.__dict__.setdefault("closure_envs", {}).setdefault(path, []).append(snap)
 
     def on_write(self, ex, fr, pl, val):
         """observes stores into the watched private integer fields (field-invariant inference)"""
@@ -462,6 +473,18 @@ class RangeDomain:
                     out.append(rs[0][0] if len(rs) == 1 else TOP)
                 return Iter(out)
             return TOP
+        if n in ("fold", "for_each") and len(a) == (3 if n == "fold" else 2) and isinstance(a[0], Iter) and isinstance(a[-1], Adt) and a[-1].name.startswith("closure:"):
+            # the closure is run once per element of a sequence of known length, the accumulator threaded through
+            cb = self.F.bodies.get(a[-1].name[len("closure:"):])
+            if cb is not None:
+                acc = a[1] if n == "fold" else None
+                for x in a[0].items[a[0].pos:]:
+                    sub = AbsExec(self.F, self, inline=ex.inline)
+                    sub.depth = getattr(ex, "depth", 0) + 1
+                    x = TOP if x is OPAQUE else x
+                    rs = sub.run(cb, [a[-1], acc, x] if n == "fold" else [a[-1], x])
+                    acc = rs[0][0] if len(rs) == 1 else TOP
+                return acc if n == "fold" else Tup([])
         if n == "next" and len(a) == 1 and isinstance(a[0], Iter):
             it = a[0]
             if it.pos < len(it.items):
@@ -1537,6 +1560,22 @@ def run_top(F, dom, b, inline, max_steps=600000, max_paths=20000):
             args.append(Rng(*r) if r else TOP)
         # captured values as the (single) place that builds this closure left them, when the same domain analysed that place
         envs = (getattr(dom, "closure_envs", None) or {}).get(b.rec["path"]) or []
+        if len(envs) > 1 and args and len({len(e) for e in envs}) == 1:
+            # built several times (an unrolled loop): captured integers are joined, anything else must be the same object
+            joined = []
+            for col in zip(*envs):
+                vals = [c.frame.env.get(c.local) if isinstance(c, Ref) and not c.proj else None for c in col]
+                if all(isinstance(v, (int, Rng)) and not isinstance(v, bool) for v in vals):
+                    lo = min(v if isinstance(v, int) else v.lo for v in vals)
+                    hi = max(v if isinstance(v, int) else v.hi for v in vals)
+                    hf = Frame(b, [])
+                    hf.env[0] = lo if lo == hi else Rng(lo, hi)
+                    joined.append(Ref(hf, 0))
+                elif all(c is col[0] or c == col[0] for c in col):
+                    joined.append(col[0])
+                else:
+                    joined.append(TOP)
+            envs = [joined]
         if len(envs) == 1 and args:
             hf = Frame(b, [])
             hf.env[0] = Adt("closure:" + b.rec["path"], None, list(envs[0]))
@@ -1552,6 +1591,20 @@ def run_top(F, dom, b, inline, max_steps=600000, max_paths=20000):
         if gsets:
             for gi in gsets[:6]:
                 ex.generic_ints = list(gi)
+                if len(gi) == 1 and b.rec.get("own_type_params") == 1 and b.rec["kind"] != "Closure":
+                    # its one parameter is the const: an array length spelled with a name is that number in this instance
+                    args = []
+                    for ty in b.rec.get("inputs") or []:
+                        ty = re.sub(r"; [A-Z][A-Za-z0-9_]*\]", "; %d]" % gi[0], ty.strip())
+                        r = ty_range(ty)
+                        if r:
+                            args.append(Rng(*r))
+                        elif ty.startswith("&"):
+                            hf = Frame(b, [])
+                            hf.env[0] = shape_value(F, ty.lstrip("&").replace("mut ", "").strip())
+                            args.append(Ref(hf, 0))
+                        else:
+                            args.append(shape_value(F, ty))
                 ex.run(b, args)
         else:
             ex.run(b, args)
